@@ -106,7 +106,20 @@ func (f *Frame) enterLoop(st *State, b *ssa.BasicBlock, li *loopInfo) *State {
 	} else {
 		for _, hn := range sortedKeys(heaps) {
 			old := h.Heap(vc, hn, heaps[hn])
-			h.SetHeap(hn, vc.freshConst("lp."+hn, old.Sort))
+			nw := vc.freshConst("lp."+hn, old.Sort)
+			h.SetHeap(hn, nw)
+			if refs, ok := li.precise[hn]; ok && arrayKeySort(old.Sort) == SInt {
+				// only known local objects are written: everything else keeps its value
+				var neq []Term
+				for _, r := range refs {
+					if r.S == "|FRESH|" {
+						neq = append(neq, Le(Base(Term{"r", SInt}), st.top))
+						continue
+					}
+					neq = append(neq, Not(Eq(Term{"r", SInt}, r)))
+				}
+				vc.assumeIn(h, Term{fmt.Sprintf("(forall ((r Int)) (! (=> %s (= (select %s r) (select %s r))) :pattern ((select %s r))))", And(neq...).S, nw.S, old.S, nw.S), SBool})
+			}
 		}
 	}
 	ntop := vc.freshConst("lp.top", SInt)
@@ -194,15 +207,39 @@ func (f *Frame) loopMods(li *loopInfo) ([]cellKey, map[string]Sort, bool) {
 			cells = append(cells, k)
 		}
 	}
+	li.precise = map[string][]Term{}
+	imprecise := map[string]bool{}
 	for _, b := range f.fn.Blocks {
 		if !li.body[b] {
 			continue
 		}
 		for _, in := range b.Instrs {
-			if vc.scanInstr(f, in, heaps, addCell, 0) {
+			// stores into struct-typed local variables allocated before the loop hit known objects
+			if st, ok := in.(*ssa.Store); ok {
+				if ref, t, ok := f.localStructTarget(st.Addr, li); ok {
+					f.collectFieldHeaps(ref, t, func(hn string, hs Sort, r Term) {
+						heaps[hn] = hs
+						li.precise[hn] = append(li.precise[hn], r)
+					})
+					continue
+				}
+			}
+			before := map[string]bool{}
+			for k := range heaps {
+				before[k] = true
+			}
+			tmp := map[string]Sort{}
+			if vc.scanInstr(f, in, tmp, addCell, 0) {
 				all = true
 			}
+			for k, v := range tmp {
+				heaps[k] = v
+				imprecise[k] = true
+			}
 		}
+	}
+	for k := range imprecise {
+		delete(li.precise, k)
 	}
 	return cells, heaps, all
 }
@@ -297,4 +334,76 @@ func (f *Frame) execDefer(st *State, x *ssa.Defer) {
 		return
 	}
 	vc.unsupported("defer of dynamic call %s", name)
+}
+
+// localStructTarget: addr designates (a field of) a struct-typed local variable
+// allocated outside the loop; returns the object reference and the type stored.
+func (f *Frame) localStructTarget(addr ssa.Value, li *loopInfo) (Term, types.Type, bool) {
+	switch a := addr.(type) {
+	case *ssa.Alloc:
+		elem := a.Type().Underlying().(*types.Pointer).Elem()
+		if !isStruct(elem) {
+			return Term{}, nil, false
+		}
+		if li.body[a.Block()] {
+			// allocated anew in every iteration: a fresh object
+			return Term{"|FRESH|", SInt}, elem, true
+		}
+		v, ok := f.regs[a]
+		if !ok {
+			return Term{}, nil, false
+		}
+		return v.T, elem, true
+	case *ssa.FieldAddr:
+		base, bt, ok := f.localStructTarget(a.X, li)
+		if !ok {
+			return Term{}, nil, false
+		}
+		st := bt.Underlying().(*types.Struct)
+		ft := st.Field(a.Field).Type()
+		if isStruct(ft) {
+			if base.S == "|FRESH|" {
+				return base, ft, true
+			}
+			return f.vc.env.subRef(bt, a.Field, base), ft, true
+		}
+		// scalar field: report as a one-field pseudo struct via marker type
+		return base, fieldMarker{bt, a.Field}, true
+	}
+	return Term{}, nil, false
+}
+
+// fieldMarker designates a single scalar field of a struct type.
+type fieldMarker struct {
+	owner types.Type
+	field int
+}
+
+func (fieldMarker) Underlying() types.Type { return nil }
+func (fieldMarker) String() string         { return "fieldMarker" }
+
+func (f *Frame) collectFieldHeaps(ref Term, t types.Type, add func(hn string, hs Sort, r Term)) {
+	env := f.vc.env
+	if fm, ok := t.(fieldMarker); ok {
+		hn, hs := env.fieldHeap(fm.owner, fm.field)
+		add(hn, hs, ref)
+		return
+	}
+	st, ok := t.Underlying().(*types.Struct)
+	if !ok {
+		return
+	}
+	for i := 0; i < st.NumFields(); i++ {
+		ft := st.Field(i).Type()
+		if isStruct(ft) {
+			if ref.S == "|FRESH|" {
+				f.collectFieldHeaps(ref, ft, add)
+			} else {
+				f.collectFieldHeaps(env.subRef(t, i, ref), ft, add)
+			}
+			continue
+		}
+		hn, hs := env.fieldHeap(t, i)
+		add(hn, hs, ref)
+	}
 }
